@@ -3229,6 +3229,9 @@ def main():
     def symfile(t):
         emit_struct(tr, t, "qasm/sym.rs", "Sym", "Sym", "SymG", " (R : Type)")
         tr.generic_op_is_multi = True
+        T(t, "qasm/sym.rs", "new", "sym_new", struct="Sym", impl=r"impl Sym", param_types={"int": ("struct", "Int")})
+        T(t, "qasm/sym.rs", "get_class", "sym_get_class", struct="Sym", impl=r"impl Sym")
+        T(t, "qasm/sym.rs", "get_probabilities", "sym_get_probabilities", struct="Sym", impl=r"impl Sym")
         T(t, "qasm/sym.rs", "reset", "sym_reset", struct="Sym", impl=r"impl Sym")
         T(t, "qasm/sym.rs", "measure", "sym_measure", struct="Sym", impl=r"impl Sym")
         tr.name_for_bodies = True
